@@ -14,6 +14,7 @@ def pFStep : P FStep := do
   let t ← P.tok
   match t with
   | "name" => pure .name | "ty" => pure .ty | "tn" => pure .typeName | "docs" => pure .docs
+  | "compact" => pure .ty     -- `.compact::<T>()` has the typestate signature of `.ty::<T>()` (TypeNotAssigned → TypeAssigned)
   | _ => P.fail
 
 def pFieldsProg : P FieldsProg := do
